@@ -4,7 +4,7 @@
    data (signed tensors included), on the iteration caps or on when the loops stop.
    vnn v = every entry of the vector >= 0;  mnn M = every entry of the matrix >= 0;  vge eps v = every entry >= eps. *)
 From Coq Require Import List Arith Bool Reals QArith Lra.
-From TLV Require Import Base.Shape Base.PyList Base.Tensor Base.Ops Model.Nonneg Model.NonnegSign Proofs.NonnegProofs Proofs.NonnegProofs2 Proofs.NonnegSignProofs.
+From TLV Require Import Base.Shape Base.PyList Base.Tensor Base.Ops Model.Nonneg Model.NonnegSign Model.NonnegOptions Proofs.NonnegProofs Proofs.NonnegProofs2 Proofs.NonnegSignProofs Proofs.NonnegOptionsProofs.
 Import ListNotations.
 Open Scope R_scope.
 
@@ -297,6 +297,61 @@ Theorem C10_sign_analysis_sound : forall (prog : list stmt) (a0 : aenv) (ret : s
 Proof. exact sign_verdict_sound. Qed.
 Print Assumptions C10_sign_analysis_sound.
 
+(* ---- the entry points as functions of their RAW options (Model/NonnegOptions.v): fixed_modes (None / list, the last mode dropped by
+        non_negative_parafac and non_negative_tucker_hals), nn_modes ('all' / None / list), sparsity_coefficients (None / scalar / list, reset on
+        fixed modes) are parsed by the model; executed against the implementation with the raw options (OMuCpE, OHalsCpE, OTkHalsE) *)
+Theorem C10_modes_of_spec : forall (n : nat) (fixed : list nat) (m : nat), In m (modes_of n fixed) <-> (m < n)%nat /\ ~ In m fixed.
+Proof. exact modes_of_spec. Qed.
+Print Assumptions C10_modes_of_spec.
+
+(* a fixed_modes list without repetitions never keeps the last mode fixed (list.remove drops ONE occurrence: see the Example below) *)
+Theorem C10_last_mode_updated : forall (n : nat) (fixed : list nat), (0 < n)%nat -> NoDup fixed -> In (n - 1)%nat (modes_of n (unfix_last n fixed)).
+Proof. exact last_mode_updated. Qed.
+Print Assumptions C10_last_mode_updated.
+
+Theorem C10_non_negative_parafac_entry : forall (nrm : list R -> R), (forall v, 0 <= nrm v) ->
+  forall (eps : R) (numf denf : nat -> @cp_state R -> nat -> list (list R)) (stop : nat -> @cp_state R -> bool)
+         (n : nat) (fixed : option (list nat)) (normalize : bool) (n_iter_max : nat) (w : list R) (Fs : list (list (list R))),
+  0 < eps -> vnn w -> Forall mnn Fs ->
+  let out := non_negative_parafac_entry Rops nrm eps numf denf stop n fixed normalize n_iter_max w Fs in
+  vnn (fst out) /\ Forall mnn (snd out).
+Proof. exact non_negative_parafac_entry_nonneg. Qed.
+Print Assumptions C10_non_negative_parafac_entry.
+
+Theorem C10_non_negative_parafac_hals_entry : forall (nrm : list R -> R), (forall v, 0 <= nrm v) ->
+  forall (utm utu : nat -> @cp_state R -> nat -> list (list R)) (solve : list (list R) -> list (list R) -> list (list R))
+         (inner : nat -> @cp_state R -> nat -> nat) (stop : nat -> @cp_state R -> bool)
+         (n : nat) (fixed : option (list nat)) (nn : nn_opt) (sp : @sp_opt R) (normalize : bool) (n_iter_max : nat) (w : list R) (Fs : list (list (list R))),
+  vnn w -> (forall m, In m (parse_nn_modes n nn) -> mnn (nth m Fs [])) ->
+  let out := non_negative_parafac_hals_entry Rops nrm utm utu solve inner stop n fixed nn sp normalize n_iter_max w Fs in
+  vnn (fst out) /\ forall m, In m (parse_nn_modes n nn) -> mnn (nth m (snd out) []).
+Proof. exact non_negative_parafac_hals_entry_nonneg. Qed.
+Print Assumptions C10_non_negative_parafac_hals_entry.
+
+(* the default nn_modes='all': every factor of the order-n decomposition, whatever is fixed *)
+Theorem C10_non_negative_parafac_hals_entry_all : forall (nrm : list R -> R), (forall v, 0 <= nrm v) ->
+  forall (utm utu : nat -> @cp_state R -> nat -> list (list R)) (solve : list (list R) -> list (list R) -> list (list R))
+         (inner : nat -> @cp_state R -> nat -> nat) (stop : nat -> @cp_state R -> bool)
+         (n : nat) (fixed : option (list nat)) (sp : @sp_opt R) (normalize : bool) (n_iter_max : nat) (w : list R) (Fs : list (list (list R))),
+  vnn w -> Forall mnn Fs ->
+  let out := non_negative_parafac_hals_entry Rops nrm utm utu solve inner stop n fixed NNAll sp normalize n_iter_max w Fs in
+  vnn (fst out) /\ forall m, (m < n)%nat -> mnn (nth m (snd out) []).
+Proof. exact non_negative_parafac_hals_entry_all. Qed.
+Print Assumptions C10_non_negative_parafac_hals_entry_all.
+
+(* no hypothesis on the (core, factors) start: initialize_tucker(non_negative=True) takes absolute values of a user start as well *)
+Theorem C10_non_negative_tucker_hals_entry : forall (nrm : list R -> R), (forall v, 0 <= nrm v) ->
+  forall (alg : core_alg) (fista_eps : R) (utm utu : nat -> @tk_state R -> nat -> list (list R)) (inner : nat -> @tk_state R -> nat -> nat)
+         (lr : nat -> @tk_state R -> R) (csp : R) (lin : nat -> @tk_state R -> list R -> list R)
+         (cutm : nat -> @tk_state R -> list R) (betas : nat -> @tk_state R -> list R) (support : nat -> @tk_state R -> nat -> list R -> list R)
+         (as_n : nat -> @tk_state R -> nat) (stop : nat -> @tk_state R -> bool)
+         (n : nat) (fixed : option (list nat)) (sp : @sp_opt R) (normalize : bool) (n_iter_max : nat) (core : tensor R) (Fs : list (list (list R))),
+  0 <= fista_eps ->
+  let out := non_negative_tucker_hals_entry Rops nrm alg fista_eps utm utu inner lr csp lin cutm betas support as_n stop n fixed sp normalize n_iter_max core Fs in
+  vnn (data (fst out)) /\ Forall mnn (snd out).
+Proof. exact non_negative_tucker_hals_entry_nonneg. Qed.
+Print Assumptions C10_non_negative_tucker_hals_entry.
+
 (* ---- non-vacuity and sharpness *)
 (* the hypotheses are satisfiable; the model computes on a signed tensor *)
 Example C10_nonvacuous_hypotheses : 0 < 1 / 1000 /\ vnn [1] /\ Forall mnn [[[1]; [1]]; [[1]; [1]]].
@@ -330,3 +385,6 @@ Example C10_sign_analysis_rejects : sign_verdict (mini_mu false) mini_a0 (XPair 
 Proof. exact sign_verdict_rejects. Qed.
 Example C10_sign_semantics_inhabited : exists st, reach (mini_mu true) (fun _ => []) st /\ st 1%nat = [1].
 Proof. exact reach_nonvacuous. Qed.
+(* sharpness of NoDup in C10_last_mode_updated: fixed_modes = [2; 2] on an order-3 tensor keeps mode 2 fixed (list.remove drops one occurrence) *)
+Example C10_repeated_fixed_mode_stays_fixed : unfix_last 3 [2; 2]%nat = [2]%nat /\ modes_of 3 (unfix_last 3 [2; 2]%nat) = [0; 1]%nat.
+Proof. exact unfix_last_repeated. Qed.
